@@ -57,6 +57,14 @@ func ValidatePreparedProof(
 		return false
 	}
 
+	if ppBlockRef.MessageType() != protocol.LEAN_HELIX_PREPREPARE || pBlockRef.MessageType() != protocol.LEAN_HELIX_PREPARE {
+		return false
+	}
+
+	if pBlockRef.InstanceId() != ppBlockRef.InstanceId() {
+		return false
+	}
+
 	ppBlockHeight := ppBlockRef.BlockHeight()
 
 	if ppBlockHeight != targetHeight {
